@@ -380,6 +380,7 @@ fn run(op: &Value) -> Value {
                 }
             }
             struct Loop(Vec<Box<dyn Endpoint<Items, Vec<u8>> + Sync + Send>>);
+            // (g5: bearer tokens as path and query arguments)
             impl Client for Loop {
                 type BodyWriter = Vec<u8>;
                 type ResponseBody = Items;
@@ -487,6 +488,10 @@ fn run(op: &Value) -> Value {
                     self.0.lock().unwrap().push(json!({"endpoint": "g4", "set_arg": set_arg.iter().map(|x| tohex(x.as_bytes())).collect::<Vec<_>>(), "opt_body": opt_body.map(|b| tohex(b.as_bytes()))}));
                     Ok(self.2.clone())
                 }
+                fn g5(&self, tok: BearerToken, qt: BearerToken) -> Result<(), conjure_error::Error> {
+                    self.0.lock().unwrap().push(json!({"endpoint": "g5", "tok": tok.as_str(), "qt": qt.as_str()}));
+                    Ok(())
+                }
             }
             struct Loop(Vec<Box<dyn Endpoint<Items, Vec<u8>> + Sync + Send>>);
             impl Client for Loop {
@@ -546,6 +551,7 @@ fn run(op: &Value) -> Value {
                     client.g2(&tok("token"), &s("p_arg"), op["opt_arg"].as_i64().map(|v| v as i32), &lst, bar.as_deref()).map(|_| Value::Null)
                 }
                 "g3" => client.g3(&s("body_arg")).map(|v| Value::String(tohex(v.as_bytes()))),
+                "g5" => client.g5(&tok("tok"), &tok("qt")).map(|_| Value::Null),
                 "g4" => {
                     let set: std::collections::BTreeSet<String> = op["set_arg"].as_array().map(|a| a.iter().map(|v| String::from_utf8(hex(v.as_str().unwrap())).unwrap_or_default()).collect()).unwrap_or_default();
                     let ob = if op["opt_body"].is_null() { None } else { Some(s("opt_body")) };
